@@ -28,6 +28,8 @@ VENV_PY = "/venv/bin/python"
 def _worker(task):
     prop, idx, repo, tier = task
     os.environ["VERIF_TIER"] = tier
+    if tier == "thorough":
+        os.environ.setdefault("PYVC_CROSSCHECK", "1")
     from pyvc.contracts import Registry
     from pyvc.exctypes import Universe
     from pyvc import verify
@@ -282,6 +284,13 @@ def main(argv=None):
         for k, v in (o.get("backends") or {}).items():
             by_backend[k] = by_backend.get(k, 0) + v
     solver_seconds = round(sum(o["seconds"] for o in obligations), 3)
+    cross = {"agree": 0, "unknown": 0, "disagree": 0}
+    for o in obligations:
+        for k, v in (o.get("cross") or {}).items():
+            cross[k] = cross.get(k, 0) + v
+    if cross["disagree"] and exit_code == 0:
+        exit_code = 3
+        print(f"SOLVER-DISAGREEMENT property={prop}: cvc5 found a model for {cross['disagree']} VC(s) that z3 proved")
     samples = [{"id": o["id"], "kind": o["kind"], "vcs": o["vcs"], "status": o["status"], "seconds": o["seconds"]}
                for o in obligations[:6]]
     evidence = {
@@ -300,6 +309,7 @@ def main(argv=None):
             "functions_under_contract": fn_infos,
             "assumed_contracts": sorted({c.target for c in assumed} | assumed_used | set(getattr(pack, "ASSUMED_MODELS", []))),
             "by_backend_vcs": by_backend,
+            "second_solver_cross_check": cross,
             "solver_seconds": solver_seconds,
             "exc_any_sites": exc_any_total,
             "undecided": undecided,
@@ -316,8 +326,25 @@ def main(argv=None):
         "wall_s": round(wall, 3),
         "violations": len(new_violations),
     }
-    with open(f"evidence/{prop}.json", "w") as fh:
+    ev_path = f"evidence/{prop}.json" if not os.environ.get("PYVC_NO_EVIDENCE") else f"out/evidence_scratch_{prop}_{os.getpid()}.json"
+    if tier == "thorough" and exit_code == 0 and not os.environ.get("PYVC_NO_EVIDENCE"):
+        # thorough tier: write the evidence first (the canary tool reads the function list from it), then mutation canaries
+        with open(ev_path, "w") as fh:
+            json.dump(evidence, fh, indent=1)
+        try:
+            n = os.environ.get("PYVC_CANARIES", "12")
+            subprocess.run([sys.executable, os.path.join(ROOT, "tools", "canaries.py"), prop, n], cwd=ROOT, timeout=6 * 3600,
+                           capture_output=True, text=True)
+            evidence["coverage"]["canaries"] = json.load(open(f"out/canaries_{prop}.json"))
+        except Exception as e:  # noqa
+            evidence["coverage"]["canaries"] = {"error": str(e)[:200]}
+    with open(ev_path, "w") as fh:
         json.dump(evidence, fh, indent=1)
+    if os.environ.get("PYVC_NO_EVIDENCE"):
+        try:
+            os.unlink(ev_path)
+        except OSError:
+            pass
 
     for l in known_lines:
         print(l)
